@@ -432,6 +432,20 @@ def relateMatches (w : World) (b : Nat) (tgtKey : Name) (v : Val) : List Nat →
         | (w', some e) => (w', some e)
       else relateMatches w b tgtKey v r
 
+/-- the creation part of `MetaClass.new` — everything before the batch relate — for a class `c` and a generator at
+    position `pos`: (the `__dict__` and the local referential dict, the defaults computed, the new position, no
+    MetaException?).  `NewInst.newOne` (the object of the C19 theorems) is this function, see `NewInst.newOne_eq_newDict` -/
+def newDict (dflt : DfltFn) (c : Cls) (args : List Val) (kwargs : List (Name × Val)) (pos : Nat) :
+    NewAcc × List (Name × Val) × Nat × Bool :=
+  let (defs, nid, dok) := computeDefaults dflt c c.attrs pos
+  if !dok then
+    -- default_value raised MetaException: the attributes before the offending one are set
+    let (acc, _) := assignAll c ⟨[], []⟩ defs
+    (acc, defs, nid, false)
+  else
+    let (acc, res) := assignAll c ⟨[], []⟩ (newItems c defs args kwargs)
+    (acc, defs, nid, decide (res = .ok))
+
 /-- `MetaModel.new(kind, *args, **kwargs)`; the instance is appended to the storage first and stays there
     whatever happens afterwards -/
 def newInstWith (dflt : DfltFn) (w : World) (kind : Name) (args : List Val) (kwargs : List (Name × Val)) :
@@ -441,29 +455,22 @@ def newInstWith (dflt : DfltFn) (w : World) (kind : Name) (args : List Val) (kwa
   | some c =>
     let key := fold kind
     let b := w.insts.length
-    let (defs, nid, dok) := computeDefaults dflt c c.attrs w.nextId
-    if !dok then
-      -- default_value raised MetaException: the attributes before the offending one are set
-      let (acc, _) := assignAll c ⟨[], []⟩ defs
-      ({ w with insts := w.insts ++ [{ cls := key, dict := acc.dict }], nextId := nid }, some .metaE)
+    let r := newDict dflt c args kwargs w.nextId
+    let w1 := { w with insts := w.insts ++ [{ cls := key, dict := r.1.dict }], nextId := r.2.2.1 }
+    if !r.2.2.2 then (w1, some .metaE)
     else
-      let (acc, res) := assignAll c ⟨[], []⟩ (newItems c defs args kwargs)
-      let w1 := { w with insts := w.insts ++ [{ cls := key, dict := acc.dict }], nextId := nid }
-      match res with
-      | .metaExc => (w1, some .metaE)
-      | .ok =>
-        match w1.assoc with
-        | none => (w1, none)
-        | some as =>
-          if as.srcKind = key then
-            match dget acc.refd as.srcKey with
-            | none => (w1, none)
-            | some v =>
-              let ty := ((attrType c as.srcKey).getD []) |> fold
-              if v = .none ∨ (ty = "UNIQUE_ID".toList ∧ v = .int 0) ∨ (ty = "STRING".toList ∧ v = .str []) then
-                (w1, none)
-              else relateMatches w1 b as.tgtKey v (storageOf w1 as.tgtKind)
-          else (w1, none)
+      match w1.assoc with
+      | none => (w1, none)
+      | some as =>
+        if as.srcKind = key then
+          match dget r.1.refd as.srcKey with
+          | none => (w1, none)
+          | some v =>
+            let ty := ((attrType c as.srcKey).getD []) |> fold
+            if v = .none ∨ (ty = "UNIQUE_ID".toList ∧ v = .int 0) ∨ (ty = "STRING".toList ∧ v = .str []) then
+              (w1, none)
+            else relateMatches w1 b as.tgtKey v (storageOf w1 as.tgtKind)
+        else (w1, none)
 
 /-- the C10 histories: IntegerGenerator (position n yields n, starting at 1) and three types -/
 def newInst (w : World) (kind : Name) (args : List Val) (kwargs : List (Name × Val)) : World × Option Exc :=
